@@ -16,6 +16,14 @@ import (
 // always mature (maturity is a consensus rule the pool models do not carry).
 func PoolNet(rng *vh.RNG, allow, require uint64) *Net { return NewNet(rng, allow, require, 0) }
 
+// PoolNetInterval is PoolNet with a chosen block interval (testutil.Network uses one second, which
+// leaves no room between "one interval after the tip" and the tip itself).
+func PoolNetInterval(rng *vh.RNG, allow, require uint64, interval time.Duration) *Net {
+	net := NewNet(rng, allow, require, 0)
+	net.N.BlockInterval = interval
+	return net
+}
+
 // Spendable returns the actor's unspent, mature, non-zero siacoin elements (by leaf index).
 func (net *Net) Spendable(l *Ledger, childHeight uint64) []types.SiacoinElement {
 	return net.spendable(l, childHeight)
